@@ -8,13 +8,22 @@ def _native(f):
     return f
 
 
-_gaddr = z3.Function('debug_addr.entry', IntS, IntS, IntS)
+_hasb = z3.Function('unit.has_base', IntS, z3.StringSort(), z3.BoolSort())
+_baseof = z3.Function('unit.base', IntS, z3.StringSort(), IntS)
 
 
 @_native
 def gaddr(I, cu, index):
-    """the address the unit's address table holds at `index` (get_addr)"""
-    return _gaddr(to_int(cu.attrs['cu_offset']), to_int(index))
+    """the address the unit's address table holds at `index` (7.27): the address-sized word at
+    DW_AT_addr_base + index * address_size of .debug_addr"""
+    from specs.k1_layouts import dwarf_word
+    sec = cu.attrs['dwarfinfo'].attrs['debug_addr_sec']
+    if sec is None:
+        # no .debug_addr section: get_addr never returns, the value is never observed (total for the logic)
+        return z3.Function('debug_addr.absent', IntS, IntS, IntS)(to_int(cu.attrs['cu_offset']), to_int(index))
+    base = _baseof(to_int(cu.attrs['cu_offset']), z3.StringVal('DW_AT_addr_base'))
+    return dwarf_word(sec.fields['stream'].arr, base + to_int(index) * to_int(cu.attrs['header'].fields['address_size']),
+                      to_int(cu.attrs['structs'].attrs['address_size']))
 
 
 @_native
@@ -43,6 +52,8 @@ def loc_next(B, o):
 def is_kind(I, rec, name):
     """the record is an instance of the named entry class"""
     from pyvc.vals import kind_id, SRec
+    if rec is None or not (isinstance(rec, SRec) or z3.is_expr(rec)):
+        return False          # None, lists: not an entry record
     if not isinstance(rec, SRec):
         # element of an empty sequence (no such element exists): unconstrained
         return I.ctx.const('kind!nil', z3.BoolSort())
@@ -67,10 +78,6 @@ def rnglist_at(I, B, p):
 def loclist_at(I, B, p):
     from specs.k1_layouts import list_entries_value, LLE_KINDS
     return list_entries_value('Dwarf_loclists_entries', LLE_KINDS, B.arr, p)
-
-
-_hasb = z3.Function('unit.has_base', IntS, z3.StringSort(), z3.BoolSort())
-_baseof = z3.Function('unit.base', IntS, z3.StringSort(), IntS)
 
 
 @_native
@@ -168,15 +175,16 @@ _pairoff = z3.Function('view_off', ArrS, IntS, IntS, IntS)
 
 @_native
 def view_off(I, B, first, k):
-    """offset of the k-th location view pair from `first`: each pair is two ULEB128 numbers"""
+    """offset of the k-th location view pair from `first`: pairs are adjacent (each two ULEB128
+    numbers: layout Dwarf_locview_pair, K2)"""
     return _pairoff(B.arr, to_int(first), to_int(k))
 
 
 def _unfold_pairoff(t):
     arr, first, k = t.arg(0), t.arg(1), t.arg(2)
     prev = _pairoff(arr, first, k - 1)
-    end = z3.Function('leb.end', ArrS, IntS, IntS)
-    return [_pairoff(arr, first, 0) == first, z3.Implies(k >= 1, t == end(arr, end(arr, prev)))]
+    end = z3.Function('end!Dwarf_locview_pair', ArrS, IntS, IntS)
+    return [_pairoff(arr, first, 0) == first, z3.Implies(k >= 1, t == end(arr, prev))]
 
 
 register_recdef('view_off', _unfold_pairoff, forward=True)
